@@ -74,5 +74,17 @@ CHECKS = {
                  "the same keepalive whose callback always closes; PINGRESP cancels+clears and is safe on None; loss stops/cancels both handles; "
                  "PINGREQ written only from the periodic call/ping() while CONNECTED. All timing statements are NOT decided.",
          "note": BASE_NOTE + " Timing clauses are outside the family.", "technique": "alias (copy) propagation of the keepalive value + who-may-write + handle typestate"},
+ "C11": {"text": "Exhaustiveness/identity on the loss closure of the three profile classes: under the clean-session test every Deferred-carrying "
+                 "per-address registry (queue, publish, release, subscribe, unsubscribe windows) is drained by a whole-registry loop that "
+                 "removes each entry and fires errback with the `reason` parameter itself (entries already fired skipped only under a "
+                 ".called test); pairing rules (fire=>unregister, unregister=>fire); the clean-up is reached on every path (no exception, no "
+                 "fired/None handle). Which kind of loss occurred and the next connection's behaviour are not explored.",
+         "note": BASE_NOTE, "technique": "loop-idiom exhaustiveness over the registry set + def-use identity of the errback argument + handle typestate"},
+ "C12": {"text": "Structural clauses of session persistence on every path of the publisher-capable classes: non-clean loss fires/removes nothing; "
+                 "resume (accepted CONNACK, negated clean test) re-sends every entry of the release and publish windows in insertion order; "
+                 "clean CONNACK purges with MQTTSessionCleared every publish registry a non-clean loss keeps; no re-send on the clean branch, "
+                 "no failure on the resume branch; publish honoured while CONNECTING. One known finding (queue not purged at a clean CONNACK). "
+                 "NOT decided: exemption of requests made before the CONNACK; release of held-back messages as the window allows.",
+         "note": BASE_NOTE, "technique": "lifecycle fact table (loss/resume/purge loop idioms per registry) + control dependence on the clean-session test"},
 }
 NOT_APPLICABLE = {}
